@@ -179,6 +179,8 @@ func checkC10(c *runCtx) {
 	for _, role := range []string{"controlling", "controlled"} {
 		csExplore(c, "api-ownership-"+role, b-1, dl, nil)
 	}
+	// overlapping Close calls on a live agent with a task in flight: whichever returns, the loop has finished
+	csExplore(c, "api-close-vs-close", b, dl, nil)
 	// two concurrent starts: exactly one wins, the other is refused, and the agent is what the winner made it
 	csExplore(c, "api-start-vs-start", b, dl, nil)
 	// the gathering paths (GatherCandidates, the gather goroutines, Restart cancelling them) under the same discipline
@@ -596,6 +598,72 @@ func c10startRace() zzmc.Scenario {
 				_ = a.Close()
 
 				return "won=" + won, fail
+			}
+		},
+	}
+}
+
+// c10closeRace: Close, GracefulClose and Conn.Close overlap while a task is running on the agent's loop. When any of them
+// returns, no task is running, none starts afterwards, and the close callback has run (the agent's state is Closed).
+func init() {
+	csScenarios["api-close-vs-close"] = c10closeRace
+}
+
+func c10closeRace() zzmc.Scenario {
+	return zzmc.Scenario{
+		Name:     "api-close-vs-close",
+		Focus:    []string{"taskloop.go"},
+		MaxSteps: 4000,
+		Setup: func(s *zzmc.Sched) func(string) (string, string) {
+			a, err := NewAgentWithOptions(WithNet(vNet{}), WithMulticastDNSMode(MulticastDNSModeDisabled), WithNetworkTypes([]NetworkType{NetworkTypeUDP4}),
+				WithCandidateTypes([]CandidateType{CandidateTypeHost}), WithLocalCredentials(vUfragA, vPwdA), WithLoggerFactory(nopFactory{}))
+			if err != nil {
+				panic(err)
+			}
+			conn, err := a.StartAccept(vUfragB, vPwdB)
+			if err != nil {
+				panic(err)
+			}
+			fail := ""
+			active, closesReturned, startedAfter := 0, 0, 0
+			task := func(context.Context) {
+				if closesReturned > 0 {
+					startedAfter++
+				}
+				active++
+				zzmc.HarnessPoint("task.body")
+				active--
+			}
+			returned := func(who string, err error) {
+				closesReturned++
+				if err != nil {
+					fail += who + "-RETURNED-" + err.Error() + " "
+				}
+				if active != 0 {
+					fail += who + "-RETURNED-WHILE-A-TASK-WAS-RUNNING "
+				}
+				if st := a.connectionState; st != ConnectionStateClosed {
+					fail += fmt.Sprintf("%s-RETURNED-BEFORE-THE-CLOSE-CALLBACK(state %s) ", who, st)
+				}
+			}
+			s.Go("T1", func() { _ = a.loop.Run(a.loop, task) })
+			s.Go("T2", func() { _ = a.loop.Run(a.loop, task) })
+			s.Go("K1", func() { returned("Close", a.Close()) })
+			s.Go("K2", func() { returned("GracefulClose", a.GracefulClose()) })
+			s.Go("K3", func() { returned("Conn.Close", conn.Close()) })
+
+			return func(dead string) (string, string) {
+				if dead != "" {
+					_ = a.Close()
+				}
+				if startedAfter > 0 {
+					fail += fmt.Sprintf("%d-TASK(S)-STARTED-AFTER-A-CLOSE-HAD-RETURNED ", startedAfter)
+				}
+				if closesReturned != 3 && dead == "" {
+					fail += fmt.Sprintf("ONLY-%d-OF-3-CLOSE-CALLS-RETURNED ", closesReturned)
+				}
+
+				return fmt.Sprint("closes=", closesReturned), fail
 			}
 		},
 	}
